@@ -1,4 +1,5 @@
 """C17 - Concurrent[...] handlers select exactly the documented sets of failures"""
+import abc
 import itertools
 
 from .. import bootstrap  # noqa: F401
@@ -9,8 +10,8 @@ PROPERTY = 'C17'
 LEVEL = 'exploration'
 EXHAUSTIVE = True
 RULE = (
-    'EXHAUSTIVE over a class hierarchy - quick: 6 classes (chain Base > Mid > Leaf, sibling, '
-    'unrelated, a second class that is also *named* Leaf) + 1 nested Concurrent type; thorough: 8 '
+    'EXHAUSTIVE over a class hierarchy - quick: 7 classes (chain Base > Mid > Leaf, sibling, '
+    'unrelated, a second class that is also *named* Leaf, a class with metaclass ABCMeta) + 1 nested Concurrent type; thorough: 9 '
     'classes + 2 nested types: every raised '
     'sequence of 1-3 child exceptions (all orders, repetitions) x every handler specialisation '
     'of 1-3 listed types with and without `...`, bare Concurrent and Concurrent[...]. For each '
@@ -60,8 +61,14 @@ class OtherLeaf(Other):
 #: a *different* class that merely has the same name as ``Leaf`` (e.g. csv.Error / binascii.Error)
 LeafTwin = type('Leaf', (Other,), {})
 
-QUICK_CLASSES = [Base, Mid, Leaf, Sib, Other, LeafTwin]
-THOROUGH_CLASSES = [Base, Mid, Leaf, Sib, Sib2, Other, OtherLeaf, LeafTwin]
+
+
+class MetaLeaf(Mid, metaclass=abc.ABCMeta):
+    """an exception class whose metaclass is not plain `type` (e.g. one that mixes in an ABC)"""
+
+
+QUICK_CLASSES = [Base, Mid, Leaf, Sib, Other, LeafTwin, MetaLeaf]
+THOROUGH_CLASSES = [Base, Mid, Leaf, Sib, Sib2, Other, OtherLeaf, LeafTwin, MetaLeaf]
 
 
 def atoms(tier):
